@@ -74,6 +74,10 @@ func runC04(rc *RunCtx) {
 		e.Exec(Tx{Msgs: msgs1(&ct.MsgLinkTokenPair{From: e.M.TC, RemoteDomain: 5, RemoteToken: Token(0), LocalToken: ""}), Note: "C04 link with an empty local token"})
 		e.Exec(Tx{Msgs: msgs1(&ct.MsgLinkTokenPair{From: e.M.TC, RemoteDomain: 5, RemoteToken: Token(3), LocalToken: "IBC/" + strings.ToLower(c04Voucher[4:])}), Note: "C04 link a voucher-shaped local token"})
 		for rep := 0; rep < rc.Pick(2, 8); rep++ {
+			// the owner's maximum body size bounds outbound bodies only: receives and what their events report do not depend on it
+			size := []uint64{64, 8000, 131, 0, 35, 99, 132, 1 << 40}[rep%8]
+			e.Exec(Tx{Msgs: msgs1(&ct.MsgUpdateMaxMessageBodySize{From: e.M.Owner, MessageSize: size}), Note: "C04 max body size (outbound only)"})
+			rc.Cov.Cell("C04_max_body_sizes", fmt.Sprint(size))
 			for ai, ac := range AmountClasses {
 				if !double && ac.V.BitLen() > 129 {
 					if !(ac.Name == "2^255" && rep == 0) { // one 2^255 mint fits the real supply; more would overflow the bank's 256-bit ints
@@ -501,6 +505,59 @@ func runC08(rc *RunCtx) {
 			}
 		}
 	}
+	// (2c) destination domain x amount: for every registered destination (the usual handful, 6..24 and a few large ids) and
+	// every amount class, with the limit set to exactly that amount: amount accepted, amount + 1 refused
+	{
+		e, err := StdEngine(rc, true, false, func(gs *ct.GenesisState, cfg *chain.Config) {
+			for d := uint32(6); d <= 24; d++ {
+				gs.TokenMessengerList = append(gs.TokenMessengerList, ct.RemoteTokenMessenger{DomainId: d, Address: Messenger(d, 0)})
+			}
+			for _, d := range []uint32{63, 64, 255, 256, 65535, 65536, 1 << 31} {
+				gs.TokenMessengerList = append(gs.TokenMessengerList, ct.RemoteTokenMessenger{DomainId: d, Address: Messenger(d, 1)})
+			}
+		})
+		if err != nil {
+			rc.Cov.Inconclusive("c08 domain x amount engine: " + err.Error())
+		} else {
+			var ds []uint32
+			for d := range e.M.Messengers {
+				ds = append(ds, d)
+			}
+			sort.Slice(ds, func(i, j int) bool { return ds[i] < ds[j] })
+			amts := []*big.Int{big.NewInt(1), new(big.Int).Sub(pow2(31), big.NewInt(1)), pow2(32), new(big.Int).Sub(pow2(63), big.NewInt(1)), pow2(63), new(big.Int).Sub(Two64, big.NewInt(1)), Two64, Two128, Two255, new(big.Int).Sub(Max256, big.NewInt(1))}
+			ci := 0
+			for _, a := range amts {
+				limitSet := false
+				for _, d := range ds {
+					ci++
+					if ci%rc.NShards != rc.Shard {
+						continue
+					}
+					if !limitSet {
+						e.Exec(Tx{Msgs: msgs1(&ct.MsgSetMaxBurnAmountPerMessage{From: e.M.TC, LocalToken: "uusdc", Amount: mkInt(a)}), Note: "C08 domain x amount: limit"})
+						limitSet = true
+					}
+					for vi, amt := range []*big.Int{a, new(big.Int).Add(a, big.NewInt(1))} {
+						mask := uint32(0)
+						if vi == 1 {
+							mask = P2Limit
+						}
+						withCaller := (ci+vi)%2 == 0
+						tx := c08Deposit(e, mask, withCaller, amt, 0, "uusdc")
+						switch x := tx.Msgs[0].(type) {
+						case *ct.MsgDepositForBurn:
+							x.DestinationDomain = d
+						case *ct.MsgDepositForBurnWithCaller:
+							x.DestinationDomain = d
+						}
+						tx.Note = fmt.Sprintf("C08 domain x amount: destination %d, amount %s, limit %s", d, amountClass(amt), amountClass(a))
+						run(e, tx, mask, withCaller, "C08_domain_amount")
+						rc.Cov.Cell("C08_domain_amount_cells", fmt.Sprintf("d=%d/%s/%d", d, amountClass(a), vi))
+					}
+				}
+			}
+		}
+	}
 	// (2b) a configured limit is the limit until the token controller sets another one: registry maintenance in between
 	// (every pair of the token unlinked, pairs linked and unlinked again, messengers, attesters, roles, flags, sizes,
 	// limits of other tokens) leaves limit accepted and limit + 1 rejected
@@ -667,6 +724,9 @@ func init() {
 			}
 			if c.Matrix["C08_subsets"]["plain/none/ok"] == 0 || c.Matrix["C08_subsets"]["with-caller/none/ok"] == 0 {
 				miss = append(miss, "empty subset never succeeded")
+			}
+			if len(c.Matrix["C08_domain_amount_cells"]) < 400 {
+				miss = append(miss, fmt.Sprintf("destination x amount cells: %d", len(c.Matrix["C08_domain_amount_cells"])))
 			}
 			if len(c.Matrix["C08_negative_limit_cells"]) < 30 {
 				miss = append(miss, fmt.Sprintf("negative-limit cells: %d", len(c.Matrix["C08_negative_limit_cells"])))
